@@ -60,6 +60,8 @@ def run_cvc5(smt2, timeout_ms):
 def discharge(ob, timeout_ms=20000, seed=0, both=False):
     """returns dict(status=proved|refuted|unknown, backend, time, model?)"""
     t0 = time.time()
+    if ob.kind == 'xcheck':
+        timeout_ms = min(timeout_ms, 4000)  # an optional sample: not worth the full budget when no model is found quickly
     s = _solver(timeout_ms, seed)
     for p in ob.pc:
         s.add(p)
@@ -146,16 +148,21 @@ def _match_bounded_forall(f):
     if not (z3.is_quantifier(f) and f.is_forall() and f.num_vars() == 1 and f.var_sort(0) == z3.IntSort()):
         return None
     b = f.body()
-    g = None
+    cands = []
     if z3.is_app(b) and b.decl().kind() == z3.Z3_OP_IMPLIES:
-        g = b.arg(0)
+        cands.append(b.arg(0))
     elif z3.is_app(b) and b.decl().kind() == z3.Z3_OP_OR:
         for c in b.children():
             if z3.is_app(c) and c.decl().kind() == z3.Z3_OP_NOT:
-                g = c.arg(0)
-                break
-    if g is None:
-        return None
+                cands.append(c.arg(0))
+    for g in cands:
+        r = _range_of_guard(g)
+        if r is not None:
+            return r
+    return None
+
+
+def _range_of_guard(g):
     conj = g.children() if z3.is_app(g) and g.decl().kind() == z3.Z3_OP_AND else [g]
     lo = hi = None
     for c in conj:
@@ -287,7 +294,10 @@ def bounded_instance_model(pc, timeout_ms, seed=0, window=5, max_len=3):
             inst.append(hi <= win + 1)
         for g in inst:
             s.add(z3.simplify(z3.substitute(g, *sub)))
-        if s.check() != z3.sat:
+        r_ = s.check()
+        if os.environ.get('PYVC_DEBUG_BI'):
+            print(f'[bounded-instances] n={n} quantifiers={len(qs)} consts={len(consts)} -> {r_} {s.reason_unknown() if r_ == z3.unknown else ""}', flush=True)
+        if r_ != z3.sat:
             continue
         m = s.model()
         # a model over the original constants: pin every sequence constant to its explicit value
